@@ -66,6 +66,15 @@ def make_task(rng, kind):
     return t
 
 
+def make_singleton_hsdp(rng):
+    """HSDP on shapes with singleton dimensions, dimensions not merged"""
+    for _ in range(100):
+        t = make_task(rng, "hsdp")
+        if any(1 in s for s in t["shapes"]) and not t["draw"]["groups"][0]["merge"]:
+            return t
+    return t
+
+
 def attach_spec(tasks):
     exp, _ = tlc.oracle("ShardOracle", ORACLE, [{"shapes": t["shapes"], "S": t["S"], "align": t.get("align", 1)} for t in tasks], tag="C07-o")
     for t, e in zip(tasks, exp):
@@ -235,7 +244,8 @@ def run(ctx):
         ctx.add_tlc(r, f"ShampooDist (one replicate column) R={W} GS={GS}")
         if not r.ok:
             raise tlc.TLCMachineryError(f"ShampooDist column model violates {r.violated}")
-    tasks = attach_spec([make_task(rng, "fsdp") for _ in range(60 if quick else 600)] + [make_task(rng, "hsdp") for _ in range(40 if quick else 300)])
+    tasks = attach_spec([make_task(rng, "fsdp") for _ in range(60 if quick else 600)] + [make_task(rng, "hsdp") for _ in range(40 if quick else 300)]
+                        + [make_singleton_hsdp(rng) for _ in range(8 if quick else 60)])
     tasks = [t for t in tasks if usable(t)]
     results = sp.sim_map(dc.run_shard_task, tasks, lambda r: bool(r.get("crash") or r.get("verdict") or r.get("param_mismatch") or any((r.get("errors") or {}).values())))
     ctx.put("worlds_not_reproduced_on_rerun", sum(1 for r in results if r.get("_flaky_first_run")))
